@@ -59,12 +59,16 @@
 (*             length is a multiple of M fails the whole request.          *)
 (*   Finding2  insane-json accepts `lax` lines, so they are stored instead *)
 (*             of rejecting the request.                                   *)
-(*   Finding3  documentDelayed negates the delay: Time.Sub saturates at    *)
+(*   Finding3  documentDelayed negated the delay: Time.Sub saturates at    *)
 (*             -2^63 ns for a time more than ~292 years ahead, the negation*)
-(*             overflows, and the far-future time is kept for the ID.      *)
-(*   Finding4  parseESTime checks the day against 31 only; time.Date then  *)
-(*             normalises "02-30" to March 1/2: a value that is no time in *)
-(*             any supported format gets a time the document never stated. *)
+(*             overflowed, and the far-future time was kept for the ID.    *)
+(*             (found by the stamp stage, repaired in /repo f4c31b8)       *)
+(*   Finding4  parseESTime checked the day against 31 only; time.Date then *)
+(*             normalised "02-30" to March 1/2: a value that is no time in *)
+(*             any supported format got a time the document never stated.  *)
+(*             (found by the stamp stage, repaired in /repo 35992b0)       *)
+(* The cfgs of the check run with Finding1 = Finding3 = Finding4 = FALSE;  *)
+(* BulkIngest_stamp_strict.cfg keeps 3 and 4 TRUE and must be rejected.    *)
 (*                                                                         *)
 (* Time stamps at the syntax level (Alpha = "stamp").  A fourth time class,*)
 (* `stamp`, stands for a concrete time stamp given by its structure (digit *)
@@ -229,7 +233,7 @@ ESParseG(t, lenientDay) ==
   IN IF Len(t) < 19 THEN bad
      ELSE LET y == PU(1, 4, 0, 9999)
               mo == PU(6, 7, 1, 12)
-              d == PU(9, 10, 1, 31)          \* "Day in a month will be checked in the Date function" - it is not
+              d == PU(9, 10, 1, 31)          \* "Day in a month will be checked in the Date function" - it was not (Finding4)
               h == PU(12, 13, 0, 23)
               mi == PU(15, 16, 0, 59)
               s == PU(18, 19, 0, 59)
@@ -347,7 +351,7 @@ Skews == {0, 1}
 \* documentDelayed(docDelay, drift, futureDrift)
 Delayed(delay) ==
   LET d1 == delay > Drift
-      d2 == delay < 0 /\ -delay > Future
+      d2 == delay < -Future          \* (was `delay < 0 /\ -delay > Future`: the same on unbounded integers, see Finding3)
   IN d1 \/ d2
 \* extractDocTime: for field in timestamp,time,ts { empty -> continue; any format parses -> return }
 RECURSIVE ExtractFrom(_, _)
